@@ -273,14 +273,34 @@ func c17Concrete(c *c17StepCase, r *c17Req, bf *BlockFetcher, ev c17Event, consu
 		}
 	case "answer":
 		ev.Ev = "chunk"
-		if len(r.reqs) == 0 {
-			ev.Ev = "nop"
-			return ev
+		// the request answered: a running task (default) or, for fault "stale", any request ever sent
+		var qPeer int
+		var qIds []uint64
+		if ev.Fault == "stale" {
+			if len(r.reqs) == 0 {
+				ev.Ev = "nop"
+				return ev
+			}
+			q := r.reqs[((ev.Which%len(r.reqs))+len(r.reqs))%len(r.reqs)]
+			qPeer, qIds = q.Peer, q.Ids
+		} else {
+			var run []*FetchTask
+			for e := bf.runningQueue.Front(); e != nil; e = e.Next() {
+				run = append(run, e.Value.(*FetchTask))
+			}
+			if len(run) == 0 {
+				ev.Ev = "nop"
+				return ev
+			}
+			t := run[((ev.Which%len(run))+len(run))%len(run)]
+			qPeer = t.syncPeer.No
+			for _, h := range t.hashes {
+				qIds = append(qIds, c17ID(h))
+			}
 		}
-		q := r.reqs[((ev.Which%len(r.reqs))+len(r.reqs))%len(r.reqs)]
-		ev.Peer = q.Peer
+		ev.Peer = qPeer
 		ev.Blocks = nil
-		for _, id := range q.Ids {
+		for _, id := range qIds {
 			b, ok := byID[id]
 			if !ok {
 				b = c17Blk{0, id, 0}
@@ -318,10 +338,13 @@ func c17Concrete(c *c17StepCase, r *c17Req, bf *BlockFetcher, ev c17Event, consu
 				r.acked = append(r.acked, b)
 				r.adds = r.adds[1:]
 			}
-		case len(r.acked) > 0:
+		case len(r.acked) > 0 && ev.Fault == "stale":
 			b = r.acked[len(r.acked)-1]
-		default:
+		case ev.Fault == "early":
 			b = c17Blk{c.Anc[0] + 1, 424242, c.Anc[1]}
+		default:
+			ev.Ev = "nop" // nothing to acknowledge
+			return ev
 		}
 		ev.No, ev.Hash = b[0], b[1]
 		switch ev.Fault {
@@ -627,10 +650,13 @@ func TestVerifC17Real(t *testing.T) {
 	w := bufio.NewWriter(out)
 	defer w.Flush()
 	zerolog.SetGlobalLevel(zerolog.Disabled)
+	if os.Getenv("VERIF_DEBUG") != "" {
+		zerolog.SetGlobalLevel(zerolog.DebugLevel)
+	}
 
 	// block pools shared by all cases: a trunk and an alternative branch per fork height
 	const maxLen = 40
-	trunk := chain.InitStubBlockChain(nil, maxLen)
+	trunk := chain.InitStubBlockChain(nil, maxLen+1) // heights 0..maxLen
 	alts := map[int]*chain.StubBlockChain{}
 	altOf := func(common int) *chain.StubBlockChain {
 		if a, ok := alts[common]; ok {
